@@ -7,7 +7,8 @@ import Gen.InterpOps
 
   `denoteBin` / `denoteUn` are the hand-written reading of the Python expressions that occur in the
   tables ("lhs + rhs" is addition / concatenation, "function divide" with the recorded body of `divide`
-  is truncating division, …).  A lambda that changes in the source changes the generated table, is no
+  is truncating division, "function modulo" with the recorded bodies of `modulo` AND `divide` is its remainder, …;
+  a lambda `lhs % rhs` — Python's floor remainder — is NOT the remainder `Spec` uses and is not denoted).  A lambda that changes in the source changes the generated table, is no
   longer (or differently) denoted, and the `decide` below fails.
 -/
 namespace Pyx.Interp
@@ -20,13 +21,20 @@ def expectedDivide : String × List String × List String :=
     "if is_int(lhs) and is_int(rhs):\n    quotient = abs(lhs) // abs(rhs)\n    if (lhs < 0) != (rhs < 0):\n        quotient = -quotient\n    return quotient",
     "return lhs / rhs"])
 
+/-- the shape of `modulo` this model was written against (integers: `lhs - rhs * divide(lhs, rhs)`; anything else —
+    no such operands are in the domain of C04 — Python's `%`) -/
+def expectedModulo : String × List String × List String :=
+  ("modulo", ["lhs", "rhs"],
+   ["is_int = lambda value: isinstance(value, int) and (not isinstance(value, bool))",
+    "if is_int(lhs) and is_int(rhs):\n    return lhs - rhs * divide(lhs, rhs)",
+    "return lhs % rhs"])
+
 def denoteBin (helpers : List (String × List String × List String)) (e : Entry) : Option BinOp :=
   if e.params = ["lhs", "rhs"] then
     match e.body with
     | "lhs + rhs" => some .add
     | "lhs - rhs" => some .sub
     | "lhs * rhs" => some .mul
-    | "lhs % rhs" => some .mod
     | "lhs < rhs" => some .lt
     | "lhs <= rhs" => some .le
     | "lhs > rhs" => some .gt
@@ -36,7 +44,8 @@ def denoteBin (helpers : List (String × List String × List String)) (e : Entry
     | "lhs or rhs" => some .or
     | "lhs and rhs" => some .and
     | _ => none
-  else if e.params = [] ∧ e.body = "function divide" ∧ helpers = [expectedDivide] then some .div
+  else if e.params = [] ∧ e.body = "function divide" ∧ helpers = [expectedDivide, expectedModulo] then some .div
+  else if e.params = [] ∧ e.body = "function modulo" ∧ helpers = [expectedDivide, expectedModulo] then some .mod
   else none
 
 def denoteUn (e : Entry) : Option UnOp :=
@@ -52,12 +61,13 @@ def denoteUn (e : Entry) : Option UnOp :=
     | _, _ => none
   else none
 
-/-- Python's `divide` on integers: `abs(lhs) // abs(rhs)`, negated when the signs differ -/
+/-- Python's `divide` on integers: `abs(lhs) // abs(rhs)`, negated when the signs differ (for `rhs = 0` Python raises
+    ZeroDivisionError where this total function yields 0: it models `divide` for `rhs ≠ 0` only) -/
 def pyDivide (x y : Int) : Int :=
   let q : Int := (x.natAbs / y.natAbs : Nat)
   if (decide (x < 0)) != (decide (y < 0)) then -q else q
 
-theorem pyDivide_eq_tdiv (x y : Int) : pyDivide x y = Int.tdiv x y := by
+theorem pyDivide_eq_tdiv (x y : Int) (_hy : y ≠ 0) : pyDivide x y = Int.tdiv x y := by
   unfold pyDivide
   cases x with
   | ofNat m =>
@@ -85,5 +95,23 @@ theorem mod_conventions_agree (x y : Int) (hx : 0 ≤ x) (hy : 0 < y) :
   constructor
   · exact (Int.tmod_eq_emod_of_nonneg hx).symm
   · exact (Int.fmod_eq_emod_of_nonneg x (Int.le_of_lt hy)).symm
+
+/-- Python's `modulo` on integers: `lhs - rhs * divide(lhs, rhs)` (for `rhs = 0` Python raises ZeroDivisionError: the
+    model is for `rhs ≠ 0`) -/
+def pyModulo (x y : Int) : Int := x - y * pyDivide x y
+
+theorem pyModulo_eq_tmod (x y : Int) (hy : y ≠ 0) : pyModulo x y = Int.tmod x y := by
+  unfold pyModulo
+  rw [pyDivide_eq_tdiv x y hy]
+  have h := Int.tmod_add_mul_tdiv x y
+  omega
+
+/-- the remainder the action language defines belongs to its truncating division -/
+theorem tdiv_tmod_identity (x y : Int) : Int.tdiv x y * y + Int.tmod x y = x := by
+  rw [Int.mul_comm, Int.add_comm]; exact Int.tmod_add_mul_tdiv x y
+
+/-- … and Python's `%` (floor) is a different function as soon as an operand is negative -/
+theorem fmod_ne_tmod_witness : Int.fmod (-7) 2 = 1 ∧ Int.tmod (-7) 2 = -1 ∧ Int.fmod 7 (-2) = -1 ∧ Int.tmod 7 (-2) = 1 := by
+  decide
 
 end Pyx.Interp
